@@ -425,7 +425,9 @@ func classifyCrash(prop, msg, scratch, replayDir string) (foundViolation, bool) 
 		return fv, false
 	}
 	var spec map[string]any
-	if err := json.Unmarshal([]byte(rest[:j]), &spec); err != nil {
+	dec := json.NewDecoder(strings.NewReader(rest[:j]))
+	dec.UseNumber() // seeds are 64-bit
+	if err := dec.Decode(&spec); err != nil {
 		return fv, false
 	}
 	what := "panic"
